@@ -6,7 +6,7 @@ open Llir Llir.Numbering
 def parseSlot (s : String) : Slot :=
   let parts := s.splitOn ":"
   let kind := parts.head!
-  let counts := kind == "P" || kind == "B" || kind == "V" || kind == "CV" || kind == "I"
+  let counts := kind == "P" || kind == "B" || kind == "V" || kind == "CV" || kind == "I" || kind == "K" || kind == "CB"
   match parts.getD 1 "" with
   | "n" => ⟨true, 0, counts⟩
   | "i" => ⟨false, 0, counts⟩
